@@ -68,8 +68,10 @@ async def apply(
     # Sleep strictly after patching, never before -- to keep the status proper.
     # The patching above, if done, interrupts the sleep instantly, so we skip it at all.
     # Note: a zero-second or negative sleep is still a sleep, it will trigger a dummy patch.
+    # A patch that has changed nothing (e.g. the same results as before) brings no new events; so, sleep as without it.
     applied = False
-    if delay and patch:
+    unchanged = resource_version is not None and resource_version == body.metadata.get('resourceVersion')
+    if delay and patch and not unchanged:
         logger.debug(f"Sleeping was skipped because of the patch, {delay} seconds left.")
     elif delay is not None:
         if delay > WAITING_KEEPALIVE_INTERVAL:
